@@ -87,7 +87,11 @@ func synthetic() pipe.Tree {
 		"dep4/dep4.go":             "package dep4\n\nimport (\n\t\"rep.io/lib\"\n\t\"rep.io/lib/sub\"\n)\n\nvar L lib.T\n\nvar S sub.S\n",
 		"dep1/dep1.go":             "package dep1\n\nimport \"" + modPath + "/dep2\"\n\nvar V = dep2.W\n\ntype T int\n",
 		"dep2/dep2.go":             "package dep2\n\nimport \"" + modPath + "/dep3\"\n\nvar W = dep3.X\n",
-		"dep3/dep3.go":             "package dep3\n\nvar X = 1\n\nfunc f() { type T int }\n\n// the package declares some predeclared names itself\ntype error interface{ Error() string }\n\nconst true = 1 == 1\n\nfunc len(x string) int { return 0 }\n",
+		// packages with cgo files: the files the type checker sees are translations in the build cache
+		"cg/only/only.go":   "package only\n\n// #include <stdlib.h>\nimport \"C\"\n\n// Handle wraps a C pointer.\ntype Handle struct{ p *C.char }\n\nfunc (h *Handle) Free() { C.free(nil) }\n\nconst Max = 3\n\nfunc New() *Handle { return &Handle{} }\n",
+		"cg/mixed/plain.go": "package mixed\n\n// Plain is declared in a file without cgo.\ntype Plain struct{ N int }\n\nfunc (Plain) Val() {}\n",
+		"cg/mixed/cgo.go":   "package mixed\n\n// #include <stdlib.h>\nimport \"C\"\n\n// Wrapped is declared in a cgo file.\ntype Wrapped struct{ p *C.char }\n\nfunc Release() { C.free(nil) }\n",
+		"dep3/dep3.go":      "package dep3\n\nvar X = 1\n\nfunc f() { type T int }\n\n// the package declares some predeclared names itself\ntype error interface{ Error() string }\n\nconst true = 1 == 1\n\nfunc len(x string) int { return 0 }\n",
 	}
 	for bits := 0; bits < 1<<nBits; bits++ {
 		name := fmt.Sprintf("k%03d", bits)
@@ -367,6 +371,9 @@ func locationChecks(c *core.Ctx, cs Case, u *gengotypes.Universe, p gengotypes.P
 		if strings.HasSuffix(fn, ".go") && !strings.Contains(fn, "go-build") {
 			dirs[filepath.Dir(fn)] = true
 		}
+		if strings.Contains(fn, "go-build") {
+			continue // a cgo translation in the build cache: not a file of the package's directory
+		}
 		if lp := u.LocateInPackage(f.Package); lp != p {
 			got := "<nil>"
 			if lp != nil {
@@ -377,6 +384,9 @@ func locationChecks(c *core.Ctx, cs Case, u *gengotypes.Universe, p gengotypes.P
 	}
 	// positions anywhere in the files: the first and the last byte of every file, every package-scope object
 	for _, f := range p.Files() {
+		if strings.Contains(p.FileSet().File(f.FileStart).Name(), "go-build") {
+			continue
+		}
 		for _, pos := range []token.Pos{f.FileStart, f.FileEnd - 1, f.End() - 1} {
 			if lp := u.LocateInPackage(pos); lp != p {
 				c.Fail("", cs, "%s: LocateInPackage(%s) is not the package", path, p.FileSet().Position(pos))
@@ -385,10 +395,19 @@ func locationChecks(c *core.Ctx, cs Case, u *gengotypes.Universe, p gengotypes.P
 	}
 	for _, n := range scope.Names() {
 		if o := scope.Lookup(n); o.Pos().IsValid() {
+			if strings.Contains(p.FileSet().Position(o.Pos()).Filename, "go-build") {
+				continue // an object cgo made up (_Cgo_*, _Ctype_*): declared in no file of the package's directory
+			}
 			c.Trans(1)
 			if lp := u.LocateInPackage(o.Pos()); lp != p {
 				c.Fail("", cs, "%s: LocateInPackage(position of %s) is not the package", path, n)
 			}
+		}
+	}
+	if m := p.Module(); m != nil && strings.HasPrefix(path, modPath+"/cg/") {
+		// (the harness wrote these packages itself: it knows where they are whatever files the loader parsed)
+		if want := filepath.Join(m.Dir, strings.TrimPrefix(path, m.Path)); p.SourceDir() != want {
+			c.Fail("", cs, "%s (a package with cgo files): SourceDir() = %q, the package is in %q", path, p.SourceDir(), want)
 		}
 	}
 	if len(dirs) == 1 {
@@ -516,7 +535,7 @@ func loadSynthetic(c *core.Ctx) (*gengotypes.Universe, []string) {
 	for bits := 0; bits < 1<<nBits; bits++ {
 		paths = append(paths, fmt.Sprintf("%s/p/k%03d", modPath, bits))
 	}
-	paths = append(paths, modPath+"/dep1", modPath+"/dep2", modPath+"/dep3", modPath+"/dep4", "rep.io/lib", "rep.io/lib/sub", "strings")
+	paths = append(paths, modPath+"/dep1", modPath+"/dep2", modPath+"/dep3", modPath+"/dep4", "rep.io/lib", "rep.io/lib/sub", "strings", modPath+"/cg/only", modPath+"/cg/mixed")
 	return u, paths
 }
 
